@@ -90,7 +90,8 @@ def ops_for(model):
             'G5=2>H1': ('calc', {i(B, 'S', 'G5'): 2}, {k('G5'): ('n', 2.0)}, [i(B, 'S', 'H1')]),
             'G2=9,G5=2>H1,H2': ('calc', {i(B, 'S', 'G2'): 9, i(B, 'S', 'G5'): 2}, {k('G2'): ('n', 9.0), k('G5'): ('n', 2.0)}, [i(B, 'S', 'H1'), i(B, 'S', 'H2')]),
             'compile': ('compile', [i(B, 'S', 'A1:C2')], blk, [i(B, 'S', 'E2'), i(B, 'S', 'E3')], [[[10, 20, 30], [40, 50, 60]]]),
-            'compile-G': ('compile', [i(B, 'S', 'G3')], {k('G3'): ('n', 11.0)}, [i(B, 'S', 'H1'), i(B, 'S', 'H2')], [11]),
+            # (J2 = A1*3 and E1 = SUM(A1:C2) do not depend on the input: they are pre-computed when the function is compiled)
+            'compile-G': ('compile', [i(B, 'S', 'G3')], {k('G3'): ('n', 11.0)}, [i(B, 'S', 'H1'), i(B, 'S', 'H2'), i(B, 'S', 'J2'), i(B, 'S', 'E1')], [11]),
             'to_dict': ('to_dict',), 'write': ('write',), 'deepcopy': ('deepcopy',),
         }
     if model == 'e':
